@@ -13,6 +13,10 @@ import (
 	"context"
 	"encoding/binary"
 	"fmt"
+	"go/ast"
+	"go/parser"
+	"go/printer"
+	"go/token"
 	"os"
 	"path/filepath"
 	"runtime"
@@ -619,6 +623,9 @@ func execC31(st *State, line string) Result {
 		res.Out = c31Run(e, st, &res)
 	case "build":
 		res.Out = c31Build(e, t, &res)
+	case "srccheck":
+		res.Tags = append(res.Tags, "srccheck")
+		res.Out = c31SrcCheck(&res)
 	case "send", "recv", "big", "bighdr":
 		res.Out = c31Frame(e, t, &res)
 	default:
@@ -667,6 +674,7 @@ func init() {
 			{"reset", "send -", "send 00", "recv 16 " + hdr(2, 0, 3, []byte{1, 2, 3}), "recv 2 " + hdr(2, 0, 3, []byte{1, 2, 3}),
 				"recv 16 " + hdr(1, 0, 3, []byte{1, 2, 3}), "recv 16 " + hdr(2, 9, 3, []byte{1, 2, 3, 4}), "recv 16 " + hdr(2, 0, 4, []byte{1, 2, 3}),
 				"recv 0 " + hdr(2, 0, 1, []byte{1}), "recv 33554433 " + hdr(2, 0, 1, []byte{1}), "recv 16 0200", "recv 16 " + hdr(2, 0, 0, nil)},
+			{"srccheck"},
 			{"reset", "bighdr 33554432 33554433", "bighdr 33554432 4294967295", "bighdr 33554432 33554432", "bighdr 8388608 8388609",
 				"big 33554432", "big 33554433", "big 33554431"},
 		},
@@ -794,3 +802,68 @@ func c31SigBytes(nIn, nSigs int) int {
 var c31Witness = []string{"reset",
 	"mk v:1:1:4190208", "mk v:1:1:4190208", "mk v:1:1:4190208", "mk v:1:1:4190208", "mk v:1:1:4190208", "mk v:1:1:1380000",
 	"mk v:225:256:0", "mk v:225:256:0", "mk v:225:256:0", "run"}
+
+// c31SrcCheck reads p2p/quic.go of the tree under test and checks, on the syntax tree, that in
+// receiveWithLimit the only buffer sized by the announced length (`make([]byte, m.Size)`) is a
+// top-level statement preceded by a top-level `if m.Size > maxSize { return … }`, and that Send
+// starts with the size test that returns. (The dynamic counterpart is the `bighdr` op.)
+func c31SrcCheck(res *Result) string {
+	fset := token.NewFileSet()
+	f, err := parser.ParseFile(fset, filepath.Join(c31Repo(), "p2p", "quic.go"), nil, parser.SkipObjectResolution)
+	must(err)
+	str := func(n ast.Node) string {
+		var b bytes.Buffer
+		_ = printer.Fprint(&b, fset, n)
+		return strings.Join(strings.Fields(b.String()), " ")
+	}
+	returns := func(b *ast.BlockStmt) bool {
+		if len(b.List) == 0 {
+			return false
+		}
+		_, ok := b.List[len(b.List)-1].(*ast.ReturnStmt)
+		return ok
+	}
+	fail := func(msg string) string {
+		res.PropKey, res.PropDesc = "C31:alloc-before-check", msg
+		return "fail"
+	}
+	var recv, send *ast.FuncDecl
+	for _, d := range f.Decls {
+		if fd, ok := d.(*ast.FuncDecl); ok && fd.Recv != nil {
+			switch fd.Name.Name {
+			case "receiveWithLimit":
+				recv = fd
+			case "Send":
+				send = fd
+			}
+		}
+	}
+	if recv == nil || send == nil {
+		return fail("receiveWithLimit or Send not found in p2p/quic.go")
+	}
+	checked, allocAt, sized := -1, -1, 0
+	for i, st := range recv.Body.List {
+		if is, ok := st.(*ast.IfStmt); ok && is.Init == nil && str(is.Cond) == "m.Size > maxSize" && returns(is.Body) && checked < 0 {
+			checked = i
+		}
+		if as, ok := st.(*ast.AssignStmt); ok && len(as.Rhs) == 1 && str(as.Rhs[0]) == "make([]byte, m.Size)" && allocAt < 0 {
+			allocAt = i
+		}
+	}
+	ast.Inspect(recv.Body, func(n ast.Node) bool {
+		if c, ok := n.(*ast.CallExpr); ok {
+			if id, ok := c.Fun.(*ast.Ident); ok && id.Name == "make" && len(c.Args) > 1 && strings.Contains(str(c.Args[1]), "Size") && str(c.Args[1]) != "TransportMessageHeaderSize" {
+				sized++
+			}
+		}
+		return true
+	})
+	if checked < 0 || allocAt < 0 || checked > allocAt || sized != 1 {
+		return fail(fmt.Sprintf("receiveWithLimit: size check at statement %d, body allocation at %d, %d size-dependent allocations", checked, allocAt, sized))
+	}
+	first, ok := send.Body.List[0].(*ast.IfStmt)
+	if !ok || !strings.Contains(str(first.Cond), "l > TransportMessageMaxSize") || !strings.Contains(str(first.Cond), "l < 1") || !returns(first.Body) {
+		return fail("Send does not start with the size test")
+	}
+	return "ok dominated"
+}
